@@ -219,7 +219,8 @@ def run(ck, replay=None):
     events = []
     work = tempfile.mkdtemp(prefix="c10-", dir=ck.work)
     for rep in range(1 if quick else 6):
-        shape = (rng.randint(4, 7), rng.randint(4, 7))
+        # (extents of every residue modulo 4 over the repetitions - centre conventions differ for odd sizes; the first one has 7 rows)
+        shape = (7, rng.choice([4, 5, 6])) if rep == 0 else (rng.choice([5, 6, 8, 11]), rng.choice([4, 7, 9, 11]))
         for (name, corr, neutral, colour_only) in corrections(darsia, rng, shape, work):
             for kind, overwrite in combos:
                 subkinds = {"array": ["array", "array-scalar"], "scalar": ["scalar"], "optical": ["optical"], "series": ["series", "series-scalar"]}[kind]
